@@ -483,11 +483,17 @@ def gen_gops(ctx, k):
     return ops
 
 
-def run_geom(ml, name, m0, idx, ops):
+def run_geom(ml, name, m0, idx, ops, outer=None):
+    """outer: the substructure is taken from a LARGER substructure (a view of a view): the same atoms are selected"""
     np = np_()
     m = ml.Molecule(m0)
     X0 = np.asarray(m.coords, dtype=float).copy()
-    tgt = m if idx is None else m.substructure(idx)
+    if idx is None:
+        tgt = m
+    elif outer is None:
+        tgt = m.substructure(idx)
+    else:
+        tgt = m.substructure(list(outer)).substructure([list(outer).index(i) for i in idx])
     try:
         for kind, arg in ops:
             if kind == "t":
@@ -509,6 +515,13 @@ def run_geom(ml, name, m0, idx, ops):
             viol = ("geometry:" + sv[0], f"{name}: translate/transform with proper rotations: {sv[1]}")
         elif idx is not None and any(k == "t" and any(a) for k, a in ops) and len(ops) == 1 and np.abs(X1[sel] - X0[sel]).max() == 0:
             viol = ("substructure:selected-not-moved", f"{name}: substructure translate left the selected atoms in place")
+        elif idx is not None and np.abs(X1[sel] - X0[sel]).max() == 0:
+            Xe = X0[list(idx)].copy()
+            for k, a in ops:
+                Xe = Xe + np.array(a) if k == "t" else Xe @ np.array(a)
+            if np.abs(Xe - X0[list(idx)]).max() > 1e-6:
+                viol = ("substructure:selected-not-moved", f"{name}: {[k for k, _ in ops]} through "
+                        f"{'a substructure of a substructure' if outer is not None else 'a substructure'} left the selected atoms {sel[:8]} in place")
     opsq = cq_list((f"(GTranslate {vq(a)})" if k == "t" else f"(GTransform {mq(a)})") for k, a in ops)
     idxq = "None" if idx is None else f"(Some {natl(idx)})"
     return f"(CGeom {rowsq(X0.tolist())} {idxq} {opsq} {rowsq(X1.tolist())})", viol, {}
@@ -2238,6 +2251,14 @@ def all_cases(ctx):
             ops = gen_gops(ctx, rng.randint(1, 3))
             rd = {"kind": "geom", "mol": name, "idx": idx, "ops": ops}
             yield "geom:substructure", ("geom", name, tuple(idx), json.dumps(ops)), rd, (lambda name=name, m=m, idx=idx, ops=ops: run_geom(ml, name, m, idx, ops))
+            # the same through a view of a view: substructure(outer).substructure(positions of idx in outer)
+            extra = [i for i in range(m.n_atoms) if i not in idx]
+            outer = idx + rng.sample(extra, rng.randint(0, min(4, len(extra))))
+            rng.shuffle(outer)
+            ops = gen_gops(ctx, rng.randint(1, 3))
+            rd = {"kind": "geom", "mol": name, "idx": idx, "ops": ops, "outer": outer}
+            yield "geom:substructure:nested", ("geom-nested", name, tuple(idx), tuple(outer), json.dumps(ops)), rd, \
+                (lambda name=name, m=m, idx=idx, ops=ops, outer=outer: run_geom(ml, name, m, idx, ops, outer))
             idxs, ref, vec = align_setup(ctx, m)
             rd = {"kind": "align", "mol": name, "idxs": idxs, "ref": ref.tolist(), "vec": vec}
             yield "align:molecule", ("align", name, json.dumps(idxs), json.dumps(ref.tolist())), rd, (lambda name=name, m=m, idxs=idxs, ref=ref, vec=vec: run_align_case(ml, name, m, idxs, ref, vec, rng.random()))
@@ -2503,7 +2524,7 @@ def replay(ctx, data):
         elif k == "rotdih" and m is not None:
             res = run_rotdih(ml, data["mol"], m, tuple(data["quad"]), data["p"], data["q"])
         elif k == "geom" and m is not None:
-            res = run_geom(ml, data["mol"], m, data["idx"], [tuple(o) for o in data["ops"]])
+            res = run_geom(ml, data["mol"], m, data["idx"], [tuple(o) for o in data["ops"]], data.get("outer"))
         elif k == "stale" and m is not None:
             res = run_stale(ml, data["mol"], m, data["plan"])
         elif k == "centroid" and m is not None:
